@@ -11,6 +11,7 @@ import (
 	"go/ast"
 	"go/parser"
 	"go/token"
+	"hash/fnv"
 	"io"
 	"math"
 	"os"
@@ -285,6 +286,16 @@ func decodeRaw(kind string, data []byte) (val, rest []byte, err error, pan any) 
 	return val, b.Buf, err, nil
 }
 
+// sig shortens a long request line to a prefix plus a hash (distinctness is counted on it).
+func sig(line string) string {
+	if len(line) <= 300 {
+		return line
+	}
+	h := fnv.New64a()
+	h.Write([]byte(line))
+	return fmt.Sprintf("%s…#%d:%x", line[:200], len(line), h.Sum64())
+}
+
 // ---- generators ---------------------------------------------------------------------------
 
 func genLen(r *hc.RNG, big bool) int {
@@ -435,28 +446,27 @@ func junk(r *hc.RNG, kind string) []byte {
 	return d
 }
 
-type cmp struct{ line, impl string }
 
 func run(c *hc.Ctx) error {
 	r := c.Rng
-	var cs []cmp
-	add := func(line, impl string) { cs = append(cs, cmp{line, impl}) }
+	bt := c.NewBatcher()
+	add := bt.Add
 
 	// ---- 1. values: encode, alignment, round-trip with trailing bytes, truncation
-	n := c.N(40000, 1500000)
+	n := c.N(40000, 400000)
 	for i := 0; i < n; i++ {
 		kind := kinds[r.Intn(len(kinds))]
 		if r.Chance(35) {
 			kind = hc.Pick(r, "bytes", "str")
 		}
-		v := genValue(r, kind, c.Thorough() && i%256 == 0)
+		v := genValue(r, kind, c.Thorough() && i%4096 == 0)
 		enc := encode(v)
 		c.Count("value." + kind)
 		if kind == "bytes" || kind == "str" {
 			c.Count("value." + kind + "." + lenClass(len(v.b)))
 		}
 		input := "enc " + kind + " " + v.text()
-		c.Eval(input, true)
+		c.Eval(sig(input), true)
 		if len(enc)%4 != 0 {
 			c.Fail("unaligned:"+kind, input, fmt.Sprintf("encoded length %d is not a multiple of 4", len(enc)))
 		}
@@ -505,7 +515,7 @@ func run(c *hc.Ctx) error {
 				c.Fail("truncated-accepted:"+kind, "dec "+kind+" "+hc.Hex(enc[:k]), fmt.Sprintf("a %d-byte prefix of a %d-byte encoding decoded as %s", k, len(enc), out))
 			}
 			line := "dec " + kind + " " + hc.Hex(enc[:k])
-			c.Eval(line, true)
+			c.Eval(sig(line), true)
 			if strings.HasPrefix(out, "ok") {
 				out += " " + hc.Hex(left)
 			}
@@ -514,7 +524,7 @@ func run(c *hc.Ctx) error {
 	}
 
 	// ---- 2. concatenations of several values decoded in sequence
-	m := c.N(4000, 100000)
+	m := c.N(4000, 40000)
 	for i := 0; i < m; i++ {
 		cnt := r.Range(2, 6)
 		var ks, wants []string
@@ -570,7 +580,7 @@ func run(c *hc.Ctx) error {
 	}
 
 	// ---- 3. arbitrary bytes through every decoder
-	j := c.N(40000, 1500000)
+	j := c.N(40000, 400000)
 	for i := 0; i < j; i++ {
 		kind := kinds[r.Intn(len(kinds))]
 		if r.Chance(40) {
@@ -598,7 +608,7 @@ func run(c *hc.Ctx) error {
 	}
 
 	// ---- 3b. PeekID / ConsumeID / ConsumeN on arbitrary bytes
-	q := c.N(6000, 200000)
+	q := c.N(6000, 60000)
 	for i := 0; i < q; i++ {
 		d := r.Bytes(hc.Pick(r, 0, 1, 3, 4, 5, 8, r.Range(0, 40)))
 		guardOp := func(f func(b *bin.Buffer) string) (out string) {
@@ -713,22 +723,6 @@ func run(c *hc.Ctx) error {
 	c.Res.Rule = "values of all 13 kinds (uint32, id, int, uint64, long, int53, double, Bool, int128, int256, bytes, string, vector header) (ints clustered at 0, ±1, 2^7, 2^8, 2^16, 2^31, 2^32, 2^63, 2^64−1; doubles incl. ±Inf and NaN payloads as bit patterns; strings/bytes with lengths clustered at 0..8, 248..262, 2^16±, up to 70000 (2^20 in thorough) and header-only up to 2^24−1) are encoded, decoded with trailing bytes or another encoding appended, and truncated; sequences of 2..6 values; arbitrary bytes aimed at each decoder's branches. non-trivial = every case except decoding the empty input; distinct = distinct request line"
 
 	// ---- correspondence
-	lines := make([]string, len(cs))
-	for i, x := range cs {
-		lines[i] = x.line
-	}
-	if p := os.Getenv("VERIF_DUMP_LINES"); p != "" { // debugging aid: the request lines of this run
-		_ = os.WriteFile(p, []byte(strings.Join(lines, "\n")+"\n"), 0o644)
-	}
-	outs, err := c.Drv.Batch(lines)
-	if err != nil {
-		return err
-	}
-	for i, o := range outs {
-		if c.Compare(cs[i].line, cs[i].impl, o) {
-			c.Res.TracesValidated++
-		}
-	}
 	c.PartialNote("Go runtime panics other than the slice/index bounds checks made explicit in the model (stack exhaustion, allocation failure) are exercised under recover(), not exhibited by the model")
-	return nil
+	return bt.Done()
 }
